@@ -239,12 +239,13 @@ func reduceSim(l Loc) (Loc, bool) {
 		return Loc{K: "or", Parts: flat}, trig
 	case "jn":
 		trig := false
-		var list []Loc
-		var push func(x Loc)
-		push = func(x Loc) {
+		// Join first flattens nested joins (sub-locations are reduced as their constructors would have) ...
+		var flat []Loc
+		var add func(x Loc)
+		add = func(x Loc) {
 			if x.K == "jn" {
 				for _, p := range x.Parts {
-					push(p)
+					add(p)
 				}
 				return
 			}
@@ -252,11 +253,18 @@ func reduceSim(l Loc) (Loc, bool) {
 				r, t := reduceSim(x)
 				trig = trig || t
 				if r.K == "jn" {
-					push(r)
+					add(r)
 					return
 				}
 				x = r
 			}
+			flat = append(flat, x)
+		}
+		for _, p := range l.Parts {
+			add(p)
+		}
+		var list []Loc
+		push := func(x Loc) {
 			if len(list) == 0 {
 				list = append(list, x)
 				return
@@ -304,16 +312,34 @@ func reduceSim(l Loc) (Loc, bool) {
 			}
 			list = append(list, x)
 		}
-		for _, p := range l.Parts {
-			push(p)
-		}
-		// Join repeats the reduction until the number of parts is stable
-		for n := len(list); n > 1; n = len(list) {
-			prev := list
+		// ... then pushes the parts one by one, a run of complemented parts as the single complement of the
+		// enclosed parts joined in reverse order ...
+		pass := func(in []Loc) {
 			list = nil
-			for _, p := range prev {
-				push(p)
+			for i := 0; i < len(in); i++ {
+				x := in[i]
+				if x.K == "co" {
+					j := i
+					for j+1 < len(in) && in[j+1].K == "co" {
+						j++
+					}
+					if j > i {
+						var inner []Loc
+						for k := j; k >= i; k-- {
+							inner = append(inner, in[k].Parts[0])
+						}
+						r, t := reduceSim(Loc{K: "jn", Parts: inner})
+						trig = trig || t
+						x, i = lco(r), j
+					}
+				}
+				push(x)
 			}
+		}
+		pass(flat)
+		// ... and repeats the reduction until the number of parts is stable
+		for n := len(list); n > 1; n = len(list) {
+			pass(list)
 			if len(list) == n {
 				break
 			}
